@@ -335,12 +335,41 @@ def gen_cmp_cross_case(rng: random.Random) -> Case:
     return Case(types, [first, second], None)
 
 
+def gen_or_guard_cmp_case(rng: random.Random) -> Case:
+    """A guard with a top-level `||` (or a mixed `&&`/`||` chain) together with eq!/ne! operands in the same
+    alternative: the guard and the comparisons are one conjunction, whatever order and grouping the macro emits."""
+    t = rng.choice(list(CMP_TYPES))
+    types = ["i32", t] + rng.choice([[], ["i32"], ["bool"]])
+    k1, k2 = rng.sample([0, 1, 2, 3], 2)
+    n_alts = 1 if rng.random() < 0.6 else 2
+    alts = []
+    for _ in range(n_alts):
+        alt = [p_bind("a"), gen_cmp(rng, t)]
+        for x in types[2:]:
+            alt.append(GEN[x](rng) if rng.random() < 0.5 else p_wild())
+        alts.append(alt)
+    form = rng.choice(["or", "or3", "andor", "orand"])
+    if form == "or":
+        guard = (f"*a == {k1} || *a == {k2}", lambda b, k1=k1, k2=k2: b["a"] in (k1, k2))
+    elif form == "or3":
+        guard = (f"*a == {k1} || *a == {k2} || *a > 2", lambda b, k1=k1, k2=k2: b["a"] in (k1, k2) or b["a"] > 2)
+    elif form == "andor":
+        guard = (f"*a >= 0 && *a == {k1} || *a == {k2}",
+                 lambda b, k1=k1, k2=k2: (b["a"] >= 0 and b["a"] == k1) or b["a"] == k2)
+    else:
+        guard = (f"*a == {k1} || *a >= 0 && *a == {k2}",
+                 lambda b, k1=k1, k2=k2: b["a"] == k1 or (b["a"] >= 0 and b["a"] == k2))
+    return Case(types, alts, guard)
+
+
 def gen_case(rng: random.Random) -> Case:
     r = rng.random()
     if r < 0.06:
         return gen_swap_case(rng)
     if r < 0.12:
         return gen_cmp_cross_case(rng)
+    if r < 0.18:
+        return gen_or_guard_cmp_case(rng)
     n = rng.choice([0, 1, 1, 2, 2, 2, 3, 3])
     types = [rng.choice(list(TYPES)) for _ in range(n)]
     if n == 0:
@@ -455,6 +484,18 @@ def render_case(c: Case, idx: int):
     ref_match = f"match {sc} {{\n" + "\n".join(arms) + "\n            _ => false,\n        }" if n > 0 else "true"
     m_src = c.matching_src()
     dbg = ", ".join(f'format!("{{:?}}", v{i})' for i in range(n))
+    # where the pattern is declared: on one line, or (every third case) the way rustfmt lays out a long invocation -
+    # `matching!(` on one line and the first sub-pattern on the next; messages name the line of the invocation
+    if idx % 3 == 0 and n > 0:
+        ordered_decl = (f"        let line = line!() + 2;\n"
+                        f"        let ordered = Unimock::new(\n"
+                        f"            M::m.next_call(matching!(\n"
+                        f"                {m_src}\n"
+                        f"            )).returns(1),\n"
+                        f"        ).no_verify_in_drop();")
+    else:
+        ordered_decl = (f"        let (line, ordered) = (line!(), Unimock::new(M::m.next_call(matching!({m_src}))"
+                        f".returns(1)).no_verify_in_drop());")
     text = f"""// pattern case {idx}: {c.key()}
 use super::support::*;
 use super::prelude::*;
@@ -478,7 +519,7 @@ pub fn run() {{
         bits_r.push(if r {{ '1' }} else {{ '0' }});
         let u = unordered.m({args});
         bits_u.push(if u == 1 {{ '1' }} else {{ '0' }});
-        let (line, ordered) = (line!(), Unimock::new(M::m.next_call(matching!({m_src})).returns(1)).no_verify_in_drop());
+{ordered_decl}
         let o = std::panic::catch_unwind(std::panic::AssertUnwindSafe(|| ordered.m({args})));
         match o {{
             Ok(v) => bits_o.push(if v == 1 {{ '1' }} else {{ 'x' }}),
